@@ -159,3 +159,239 @@ def x_tw(p):
         "out": outcome_class(exc),
         "res": res,
     }
+
+
+# ----------------------------------------------------------------------------- helpers for units
+def _unit(p):
+    from fractions import Fraction
+
+    return Fraction(p["unit"][0], p["unit"][1])
+
+
+def _to_units(x, unit):
+    from .twin import to_units
+
+    return to_units(x, unit)
+
+
+# ----------------------------------------------------------------------------- C06
+@executor("split")
+def x_split(p):
+    from robotools.worklists.utils import partition_volume
+
+    unit = _unit(p)
+    v = float(p["v"] * unit)
+    M = float(p["M"] * unit)
+    if p.get("mint") and M.is_integer():
+        M = int(M)
+    if p.get("vint") and v.is_integer():
+        v = int(v)
+    steps, exc = [], None
+    try:
+        res = partition_volume(v, max_volume=M)
+        steps = [_to_units(s, unit) for s in res]
+    except Exception as e:  # noqa
+        exc = e
+    return {"fn": "split", "id": f"v={p['v']} M={p['M']} unit={p['unit'][0]}/{p['unit'][1]}", "v": p["v"], "M": p["M"],
+            "out": outcome_class(exc), "steps": steps}
+
+
+# ----------------------------------------------------------------------------- C10
+@executor("mask")
+def x_mask(p):
+    from . import lexer
+    from .twin import tip_arg_log, tip_arg_value
+
+    rt = robotools()
+    wl = rt.EvoWorklist() if p.get("dev", "evo") == "evo" else rt.FluentWorklist()
+    exc = None
+    try:
+        f = wl.aspirate_well if p["via"] == "A" else wl.dispense_well
+        f("rack", 3, 10, tip=tip_arg_value(p["tip"]))
+    except Exception as e:  # noqa
+        exc = e
+    recs = [lexer.lex(r) for r in wl]
+    return {"fn": "mask", "id": f"{p['via']} {p['tip']}", "tip": tip_arg_log(p["tip"]), "via": p["via"], "out": outcome_class(exc),
+            "nrec": len(recs), "mask": recs[0].get("tip", lexer.BAD) if recs and recs[0].get("t") in ("A", "D") else lexer.BAD,
+            "rt": recs[0].get("t", "?") if recs else ""}
+
+
+# ----------------------------------------------------------------------------- C12
+@executor("sel")
+def x_sel(p):
+    from robotools.evotools import commands as c
+
+    R, C = p["rows"], p["cols"]
+    sel = [list(w) for w in p["sel"]]
+    ids = [wid(r, cc) for r, cc in sel]
+    exc, codes, arr_ok = None, [], True
+    try:
+        arr = c.evo_make_selection_array(R, C, np.array(ids) if p.get("nd") else ids)
+        want = np.zeros((R, C))
+        # the selection array itself is part of the interface: it must mark exactly the selected wells
+        marked = sorted((int(r), int(cc)) for r, cc in zip(*np.nonzero(arr)))
+        arr_ok = arr.shape == (R, C) and marked == sorted(set((r, cc) for r, cc in sel)) and set(np.unique(arr)) <= {0.0, 1.0}
+        s = c.evo_get_selection(R, C, arr)
+        codes = [ord(ch) for ch in s]
+    except Exception as e:  # noqa
+        exc = e
+    return {"fn": "sel", "id": f"{R}x{C}:{len(sel)}:{p.get('tag', '')}", "rows": R, "cols": C, "sel": sel, "out": outcome_class(exc),
+            "codes": codes, "arrok": bool(arr_ok)}
+
+
+# ----------------------------------------------------------------------------- C18
+@executor("part")
+def x_part(p):
+    from robotools.worklists.utils import partition_by_column
+
+    tr = p["triples"]  # [[sr, sc], [dr, dc], v]
+    srcs = [wid(*t[0]) for t in tr]
+    dsts = [wid(*t[1]) for t in tr]
+    vols = [float(t[2]) for t in tr]
+    exc, groups = None, []
+    try:
+        res = partition_by_column(srcs, dsts, vols, p["mode"])
+        for g in res:
+            ss, dd, vv = g
+            if not (len(ss) == len(dd) == len(vv)):
+                groups.append([[[-1, -1], [-1, -1], -1]])
+                continue
+            groups.append([[_parse_wid(str(s)), _parse_wid(str(d)), _intv(v)] for s, d, v in zip(ss, dd, vv)])
+    except Exception as e:  # noqa
+        exc = e
+    return {"fn": "part", "id": f"{p['mode']} n={len(tr)} {p.get('tag', '')}", "mode": p["mode"],
+            "x": [{"s": t[0], "d": t[1], "v": int(t[2])} for t in tr], "out": outcome_class(exc),
+            "groups": [[{"s": t[0], "d": t[1], "v": t[2]} for t in g] for g in groups]}
+
+
+def _parse_wid(s):
+    import re
+
+    m = re.match(r"^([A-Z])(\d+)$", s)
+    if not m:
+        return [-1, -1]
+    return [LETTERS.index(m.group(1)), int(m.group(2)) - 1]
+
+
+def _intv(v):
+    try:
+        f = float(v)
+        return int(f) if f == int(f) and abs(f) < 2**31 else -1
+    except Exception:
+        return -1
+
+
+@executor("optpart")
+def x_optpart(p):
+    from robotools.worklists.utils import optimize_partition_by
+
+    rt = robotools()
+
+    def mk(trough, name):
+        if trough:
+            return rt.Trough(name, 4, 2, min_volume=0, max_volume=10)
+        return rt.Labware(name, 4, 2, min_volume=0, max_volume=10)
+
+    exc, res = None, ""
+    try:
+        res = optimize_partition_by(mk(p["st"], "s"), mk(p["dt"], "d"), p["mode"], p.get("label"))
+    except Exception as e:  # noqa
+        exc = e
+    return {"fn": "optpart", "id": f"{p['st']}/{p['dt']}/{p['mode']}", "st": bool(p["st"]), "dt": bool(p["dt"]), "mode": p["mode"],
+            "out": outcome_class(exc), "res": res if isinstance(res, str) else "?"}
+
+
+# ----------------------------------------------------------------------------- C15
+def _arr_to_shape(a):
+    """numpy result -> logged shape argument of [r, c] wells (ids parsed by the Tecan convention)."""
+    a = np.asarray(a)
+    if a.ndim == 0:
+        return {"k": "s", "x": _parse_wid(str(a))}
+    if a.ndim == 1:
+        return {"k": "l", "x": [_parse_wid(str(x)) for x in a]}
+    if a.ndim == 2:
+        return {"k": "m", "x": [[_parse_wid(str(x)) for x in row] for row in a]}
+    return {"k": "?", "x": []}
+
+
+NOSHAPE = {"k": "none", "x": []}
+
+
+def _wells_arg(a, present):
+    conv = lambda w: wid(*w)
+    v = shape_arg(a, conv, present)
+    return v
+
+
+@executor("shift")
+def x_shift(p):
+    rt = robotools()
+    exc0, exc, exc2 = None, None, None
+    shifted, unshifted = NOSHAPE, NOSHAPE
+    try:
+        sh = rt.WellShifter(tuple(p["A"]), tuple(p["B"]), wid(*p["anchor"]))
+    except Exception as e:  # noqa
+        exc0 = e
+    if exc0 is None:
+        try:
+            res = sh.shift(_wells_arg(p["wells"], p.get("present", "list")))
+            shifted = _arr_to_shape(res)
+            try:
+                unshifted = _arr_to_shape(sh.unshift(res))
+            except Exception as e:  # noqa
+                exc2 = e
+        except Exception as e:  # noqa
+            exc = e
+    return {"fn": "shift", "id": f"A={p['A']} B={p['B']} anchor={p['anchor']} k={p['wells']['k']}", "A": p["A"], "B": p["B"],
+            "anchor": p["anchor"], "wells": p["wells"], "ctor": outcome_class(exc0), "out": outcome_class(exc),
+            "out2": outcome_class(exc2), "shifted": shifted, "unshifted": unshifted}
+
+
+@executor("rot")
+def x_rot(p):
+    rt = robotools()
+    sh = tuple(p["shape"])
+    sw = (sh[1], sh[0])
+    exc = None
+    res = {"cw": NOSHAPE, "ccw": NOSHAPE, "cwccw": NOSHAPE, "ccwcw": NOSHAPE, "cw4": NOSHAPE}
+    try:
+        r1, r2 = rt.WellRotator(sh), rt.WellRotator(sw)
+        arg = _wells_arg(p["wells"], p.get("present", "list"))
+        cw = r1.rotate_cw(arg)
+        ccw = r1.rotate_ccw(arg)
+        res["cw"] = _arr_to_shape(cw)
+        res["ccw"] = _arr_to_shape(ccw)
+        res["cwccw"] = _arr_to_shape(r2.rotate_ccw(cw))
+        res["ccwcw"] = _arr_to_shape(r2.rotate_cw(ccw))
+        res["cw4"] = _arr_to_shape(r2.rotate_cw(r1.rotate_cw(r2.rotate_cw(cw))))
+    except Exception as e:  # noqa
+        exc = e
+    rec = {"fn": "rot", "id": f"shape={p['shape']} k={p['wells']['k']}", "shape": p["shape"], "wells": p["wells"], "out": outcome_class(exc)}
+    rec.update(res)
+    return rec
+
+
+@executor("rand")
+def x_rand(p):
+    rt = robotools()
+    sh = tuple(p["shape"])
+    exc = None
+    tab1, tab2 = [], []
+    res = {"rnd": NOSHAPE, "back": NOSHAPE}
+    try:
+        kw = {} if p["mode"] == "default" else {"mode": p["mode"]}
+        r1 = rt.WellRandomizer(sh, p["seed"], **kw)
+        r2 = rt.WellRandomizer(sh, p["seed"], **kw)
+        tab1 = [[_parse_wid(str(k)), _parse_wid(str(v))] for k, v in r1.lookup.items()]
+        tab2 = [[_parse_wid(str(k)), _parse_wid(str(v))] for k, v in r2.lookup.items()]
+        arg = _wells_arg(p["wells"], p.get("present", "list"))
+        rnd = r1.randomize_wells(arg)
+        res["rnd"] = _arr_to_shape(rnd)
+        res["back"] = _arr_to_shape(r2.derandomize_wells(rnd))
+    except Exception as e:  # noqa
+        exc = e
+    rec = {"fn": "rand", "id": f"shape={p['shape']} seed={p['seed']} mode={p['mode']} k={p['wells']['k']}", "shape": p["shape"],
+           "mode": "full" if p["mode"] == "default" else p["mode"], "seed": p["seed"], "wells": p["wells"], "out": outcome_class(exc),
+           "tab1": sorted(tab1), "tab2": sorted(tab2)}
+    rec.update(res)
+    return rec
